@@ -503,6 +503,11 @@ func (env *c18Env) run(s c18Scenario) (*c18Run, error) {
 	}
 	logp := filepath.Join(root, "log")
 	args := []string{"-f", "-y", "-s", "0", "-e", "trace=" + c18TraceSet, "-o", logp}
+	if s.Fault.Kind != "kill" {
+		// stop the tracee only at the traced calls (much cheaper: the Go runtime makes hundreds of other
+		// calls at start-up); not usable for kill runs: signal injection does not work under seccomp-bpf
+		args = append([]string{"--seccomp-bpf"}, args...)
+	}
 	switch s.Fault.Kind {
 	case "kill":
 		args = append(args, "-e", fmt.Sprintf("inject=%s:signal=SIGKILL:when=%d", s.Fault.Syscall, s.Fault.When))
@@ -771,6 +776,15 @@ func (c *c18Checker) check(s c18Scenario, o c18Oracle, run *c18Run) {
 	}
 	if run.TempName != "" {
 		r.Dist("temp-left:" + map[bool]string{true: "after-kill", false: "after-error-exit"}[killed])
+		unlinkFailed := false
+		for _, e := range run.Events {
+			if e.Call == "unlink" && e.Errno != "" {
+				unlinkFailed = true
+			}
+		}
+		if !killed && !unlinkFailed && c.variant == "in-force" {
+			viol("property", "temp-file-left-behind", "the process exited (was not killed) and left its temp file in the directory", nil)
+		}
 		if s.Cmd != "write" || !o.All || !bytes.HasPrefix(o.Joined, run.Temp.Data) {
 			viol("property", "leftover-not-a-prefix", "a left-over temp file is not a prefix of the formatted text (or exists although nothing was to be written)", nil)
 		}
@@ -945,11 +959,11 @@ func c18FixedFiles() []c18File {
 	txt := func(s string) []byte { return []byte(s) }
 	return []c18File{
 		{Label: "needs-formatting", Name: "a.evy", Content: txt("x:=1\nprint   x\n"), Mode: 0o644},
-		{Label: "already-formatted", Name: "b.evy", Content: txt("x := 1\nprint x\n"), Mode: 0o664},
-		{Label: "unparsable", Name: "c.evy", Content: txt("x := \nprint )\n"), Mode: 0o644},
-		{Label: "empty", Name: "e.evy", Content: txt(""), Mode: 0o640},
 		{Label: "large", Name: "l.evy", Content: c18LargeSource(2200), Mode: 0o755},
+		{Label: "unparsable", Name: "c.evy", Content: txt("x := \nprint )\n"), Mode: 0o644},
 		{Label: "txtar-needs-formatting", Name: "t.txtar", Content: txt("a comment\n-- one.evy --\nx:=1\nprint   x\n-- notes.txt --\nkeep   this  \n-- two.evy --\nprint \"ok\"\n"), Mode: 0o644},
+		{Label: "already-formatted", Name: "b.evy", Content: txt("x := 1\nprint x\n"), Mode: 0o664},
+		{Label: "empty", Name: "e.evy", Content: txt(""), Mode: 0o640},
 		{Label: "txtar-unparsable-member", Name: "u.txtar", Content: txt("-- one.evy --\nprint 1\n-- two.evy --\nprint )\n"), Mode: 0o644},
 		{Label: "mode-0600", Name: "m.evy", Content: txt("print   \"äöü\"\n"), Mode: 0o600},
 		{Label: "read-only-file", Name: "r.evy", Content: txt("if true\nprint 1\nend\n"), Mode: 0o444},
@@ -992,7 +1006,8 @@ func c18Build(work string) (string, error) {
 }
 
 // faultsOf enumerates kill and error injection at every call index of the fault-free run.
-func c18FaultsOf(base *c18Run) []c18Fault {
+// errnos(i) gives the errnos to inject at call index i (all three in thorough, one in quick).
+func c18FaultsOf(base *c18Run, errnos func(i int) []string) []c18Fault {
 	var fs []c18Fault
 	rel := map[string]int{}
 	for i, e := range base.Events {
@@ -1001,12 +1016,16 @@ func c18FaultsOf(base *c18Run) []c18Fault {
 		// all calls on another thread: only the calls on the target directory count
 		onMain := rel[e.Syscall] + base.Startup[e.Syscall]
 		fs = append(fs, c18Fault{Kind: "kill", Index: i, Syscall: e.Syscall, When: onMain, WhenAlt: rel[e.Syscall]})
-		for _, en := range []string{"ENOSPC", "EIO", "EACCES"} {
+		for _, en := range errnos(i) {
 			fs = append(fs, c18Fault{Kind: "err", Index: i, Errno: en, Syscall: e.Syscall, When: onMain, WhenAlt: rel[e.Syscall]})
 		}
 	}
 	return fs
 }
+
+var c18Errnos = []string{"ENOSPC", "EIO", "EACCES"}
+
+func c18AllErrnos(int) []string { return c18Errnos }
 
 // hit says whether the injected run really had its fault at the intended call.
 func c18Hit(base, run *c18Run, f c18Fault) bool {
@@ -1037,7 +1056,7 @@ func c18Hit(base, run *c18Run, f c18Fault) bool {
 }
 
 func runC18(cfg Config, r *Result) {
-	r.Rule = "one evaluation = one run of the real evy binary under strace on a scratch directory, compared call by call and in its final state with the extracted model run under the observed outcomes, and judged by the property itself; for every source file: the fault-free `fmt -w` run, then SIGKILL on entry of call i and ENOSPC/EIO/EACCES from call i for EVERY call index i of that run (exhaustive over single faults), plus a real short write (RLIMIT_FSIZE) for the large file, a read-only directory as an unprivileged user, a missing file; `fmt -c` and plain `fmt` on every file; non-trivial = a fault was injected or the run made more than 5 calls; distinct = distinct (file content, command, fault)"
+	r.Rule = "one evaluation = one run of the real evy binary under strace on a scratch directory, compared call by call and in its final state with the extracted model run under the observed outcomes, and judged by the property itself; for each of 4 (quick) / 30 (thorough) source files: the fault-free `fmt -w` run, then SIGKILL on entry of call i and an errno (quick: one of ENOSPC/EIO/EACCES, thorough: all three) from call i for EVERY call index i of that run (exhaustive over call indices), the same for `fmt -c` on 1 / 6 files, plus real short writes (RLIMIT_FSIZE) for the large file, a read-only directory as an unprivileged user, a missing file; fault-free `fmt -w` and `fmt -c` (and plain `fmt` on some) on every fixed and generated file; non-trivial = a fault was injected or the run made more than 5 calls; distinct = distinct (file content, command, fault)"
 	work, err := os.MkdirTemp("", "c18-")
 	if err != nil {
 		r.Violate(Violation{Kind: "correspondence", Key: "scratch", Detail: err.Error()})
@@ -1055,7 +1074,7 @@ func runC18(cfg Config, r *Result) {
 		return
 	}
 	env := &c18Env{evy: bin, work: work}
-	chk := &c18Checker{models: make(chan *Model, 6), variant: "asis", r: r}
+	chk := &c18Checker{models: make(chan *Model, 6), variant: c18Variant(), r: r}
 	for i := 0; i < 6; i++ {
 		model, err := StartModel("fmtcmd")
 		if err != nil {
@@ -1070,21 +1089,13 @@ func runC18(cfg Config, r *Result) {
 		c18Replay(cfg, env, chk)
 		return
 	}
+	r.Note("model protocol: %s (in-force = FmtCmd.write_atomically, main.go since c62275b: stat, fchmod before rename, temp file removed on errors)", chk.variant)
 
-	// which protocol does the binary follow: the one in the tree (asis) or the proposed fix (fixed)?
-	probe := c18Scenario{File: c18FixedFiles()[0], Cmd: "write", Fault: c18Fault{Kind: "none"}}
-	if pr, err := env.run(probe); err == nil {
-		for _, e := range pr.Events {
-			if e.Call == "fchmod" || e.Call == "stat" {
-				chk.variant = "fixed"
-			}
-		}
-	}
-	r.Note("protocol variant detected from the fault-free trace: %s (asis = writeAtomically as in the tree; fixed = with the proposed chmod/cleanup patch)", chk.variant)
-
+	thorough := cfg.Tier == "thorough"
 	files := c18FixedFiles()
-	nFaultFiles := cfg.N(8, 30)
-	nGen := cfg.N(16, 300)
+	nFaultFiles := cfg.N(4, 30)
+	nCheckFault := cfg.N(1, 6)
+	nGen := cfg.N(6, 300)
 	if v, err := strconv.Atoi(os.Getenv("C18_NFAULT")); err == nil { // knobs for sanity-testing the check itself
 		nFaultFiles = v
 	}
@@ -1094,120 +1105,145 @@ func runC18(cfg Config, r *Result) {
 	for i := 0; i < nGen; i++ {
 		files = append(files, c18GenFile(cfg.Rng, i))
 	}
-
-	type job struct {
-		s    c18Scenario
-		o    c18Oracle
-		base *c18Run
+	// quick: SIGKILL and ONE errno per call index (which one rotates with the index and the seed);
+	// thorough: SIGKILL and all three errnos
+	errnos := c18AllErrnos
+	if !thorough {
+		errnos = func(i int) []string { return []string{c18Errnos[(i+int(cfg.Seed))%len(c18Errnos)]} }
 	}
-	jobs := make(chan job, 64)
-	var wg sync.WaitGroup
-	var missMu sync.Mutex
-	misses, injected := 0, 0
-	for w := 0; w < 8; w++ {
-		wg.Add(1)
+
+	// up to 8 strace'd processes at once, each in its own scratch directory; jobs may submit jobs
+	sem := make(chan struct{}, 8)
+	var pending sync.WaitGroup
+	submit := func(fn func()) {
+		pending.Add(1)
 		go func() {
-			defer wg.Done()
-			for j := range jobs {
-				var run *c18Run
-				var err error
-				ok := false
-				learned := 0
-				for attempt := 0; attempt < 12 && !ok; attempt++ {
-					sc := j.s
-					if learned > 0 {
-						sc.Fault.When = learned // the per-thread index seen in the run that was missed
-					} else if attempt%2 == 1 && sc.Fault.WhenAlt > 0 {
-						sc.Fault.When = sc.Fault.WhenAlt
-					}
-					learned = 0
-					run, err = env.run(sc)
-					if err == nil && j.base != nil && sc.Fault.Index < len(run.Events) &&
-						run.Events[sc.Fault.Index].Syscall == sc.Fault.Syscall && run.Events[sc.Fault.Index].When != sc.Fault.When {
-						learned = run.Events[sc.Fault.Index].When
-					}
-					if err != nil {
-						continue
-					}
-					ok = j.base == nil || c18Hit(j.base, run, j.s.Fault)
-				}
-				if err != nil {
-					chk.mu.Lock()
-					r.Violate(Violation{Kind: "correspondence", Key: "run-failed", Detail: err.Error(), Input: chk.input(j.s)})
-					chk.mu.Unlock()
-					continue
-				}
-				if j.base != nil {
-					missMu.Lock()
-					injected++
-					if !ok {
-						misses++
-					}
-					missMu.Unlock()
-				}
-				if !ok {
-					chk.mu.Lock()
-					r.Dist("inject-miss")
-					if os.Getenv("C18_DEBUG") != "" {
-						fmt.Fprintf(os.Stderr, "MISS %s syscall=%s when=%d exit=%d sig=%s n=%d\n%s\n", j.s.id(), j.s.Fault.Syscall, j.s.Fault.When, run.Exit, run.Signal, len(run.Events), run.LogTail)
-					}
-					chk.mu.Unlock()
-				}
-				chk.check(j.s, j.o, run)
-			}
+			defer pending.Done()
+			sem <- struct{}{}
+			defer func() { <-sem }()
+			fn()
 		}()
 	}
-
-	faultFiles := 0
-	for fi, f := range files {
-		o := c18OracleFor(f)
-		// fault-free runs of all three commands
-		for _, cmdName := range []string{"write", "check", "plain"} {
-			if cmdName == "plain" && fi >= len(c18FixedFiles()) && fi%4 != 0 {
-				continue
+	var cntMu sync.Mutex
+	misses, injected, faultFiles := 0, 0, 0
+	fail := func(s c18Scenario, err error) {
+		chk.mu.Lock()
+		r.Violate(Violation{Kind: "correspondence", Key: "run-failed", Detail: err.Error(), Input: chk.input(s)})
+		chk.mu.Unlock()
+	}
+	plain := func(s c18Scenario, o c18Oracle) {
+		submit(func() {
+			run, err := env.run(s)
+			if err != nil {
+				fail(s, err)
+				return
 			}
+			chk.check(s, o, run)
+		})
+	}
+	inject := func(s c18Scenario, o c18Oracle, base *c18Run) {
+		submit(func() {
+			var run *c18Run
+			var err error
+			ok := false
+			learned := 0
+			for attempt := 0; attempt < 12 && !ok; attempt++ {
+				sc := s
+				if learned > 0 {
+					sc.Fault.When = learned // the per-thread index seen in the run that was missed
+				} else if attempt%2 == 1 && sc.Fault.WhenAlt > 0 {
+					sc.Fault.When = sc.Fault.WhenAlt
+				}
+				learned = 0
+				run, err = env.run(sc)
+				if err != nil {
+					continue
+				}
+				if sc.Fault.Index < len(run.Events) && run.Events[sc.Fault.Index].Syscall == sc.Fault.Syscall &&
+					run.Events[sc.Fault.Index].When != sc.Fault.When {
+					learned = run.Events[sc.Fault.Index].When
+				}
+				ok = c18Hit(base, run, s.Fault)
+			}
+			if err != nil {
+				fail(s, err)
+				return
+			}
+			cntMu.Lock()
+			injected++
+			if !ok {
+				misses++
+			}
+			cntMu.Unlock()
+			if !ok {
+				chk.mu.Lock()
+				r.Dist("inject-miss")
+				if os.Getenv("C18_DEBUG") != "" {
+					fmt.Fprintf(os.Stderr, "MISS %s syscall=%s when=%d exit=%d sig=%s n=%d\n%s\n", s.id(), s.Fault.Syscall, s.Fault.When, run.Exit, run.Signal, len(run.Events), run.LogTail)
+				}
+				chk.mu.Unlock()
+			}
+			chk.check(s, o, run)
+		})
+	}
+	// fault-free run, then every single fault of it
+	enumerate := func(f c18File, o c18Oracle, cmdName string) {
+		submit(func() {
 			s := c18Scenario{File: f, Cmd: cmdName, Fault: c18Fault{Kind: "none"}}
-			if cmdName != "write" || faultFiles >= nFaultFiles {
-				jobs <- job{s: s, o: o}
-				continue
-			}
-			// fault enumeration for this file
 			base, err := env.run(s)
 			if err != nil {
-				r.Violate(Violation{Kind: "correspondence", Key: "run-failed", Detail: err.Error(), Input: chk.input(s)})
-				continue
+				fail(s, err)
+				return
 			}
 			chk.check(s, o, base)
+			for _, ft := range c18FaultsOf(base, errnos) {
+				inject(c18Scenario{File: f, Cmd: cmdName, Fault: ft}, o, base)
+			}
+		})
+	}
+
+	nFixed := len(c18FixedFiles())
+	for fi, f := range files {
+		f := f
+		o := c18OracleFor(f)
+		if faultFiles < nFaultFiles {
 			faultFiles++
-			for _, ft := range c18FaultsOf(base) {
-				jobs <- job{s: c18Scenario{File: f, Cmd: "write", Fault: ft}, o: o, base: base}
+			enumerate(f, o, "write")
+			if faultFiles <= nCheckFault {
+				enumerate(f, o, "check") // no write may ever happen, whatever fails
+			} else {
+				plain(c18Scenario{File: f, Cmd: "check", Fault: c18Fault{Kind: "none"}}, o)
 			}
-			// the same for check mode on a few files (no write may ever happen)
-			if faultFiles <= cfg.N(1, 6) {
-				sc := c18Scenario{File: f, Cmd: "check", Fault: c18Fault{Kind: "none"}}
-				if bc, err := env.run(sc); err == nil {
-					for _, ft := range c18FaultsOf(bc) {
-						jobs <- job{s: c18Scenario{File: f, Cmd: "check", Fault: ft}, o: o, base: bc}
-					}
-				}
-			}
+		} else {
+			plain(c18Scenario{File: f, Cmd: "write", Fault: c18Fault{Kind: "none"}}, o)
+			plain(c18Scenario{File: f, Cmd: "check", Fault: c18Fault{Kind: "none"}}, o)
+		}
+		if fi < cfg.N(2, 4) || (fi >= nFixed && fi%4 == 0) {
+			plain(c18Scenario{File: f, Cmd: "plain", Fault: c18Fault{Kind: "none"}}, o)
 		}
 		if f.Label == "large" {
-			for _, lim := range []int{1, 4096, 65536} {
-				jobs <- job{s: c18Scenario{File: f, Cmd: "write", Fault: c18Fault{Kind: "fsize", Fsize: lim}}, o: o}
+			lims := []int{4096, 65536}
+			if thorough {
+				lims = []int{1, 4096, 65536}
+			}
+			for _, lim := range lims {
+				plain(c18Scenario{File: f, Cmd: "write", Fault: c18Fault{Kind: "fsize", Fsize: lim}}, o)
 			}
 		}
-		if fi < 3 {
-			jobs <- job{s: c18Scenario{File: f, Cmd: "write", Fault: c18Fault{Kind: "rodir"}}, o: o}
-			jobs <- job{s: c18Scenario{File: f, Cmd: "write", Fault: c18Fault{Kind: "missing"}}, o: o}
-			jobs <- job{s: c18Scenario{File: f, Cmd: "check", Fault: c18Fault{Kind: "missing"}}, o: o}
+		if fi < cfg.N(1, 3) {
+			plain(c18Scenario{File: f, Cmd: "write", Fault: c18Fault{Kind: "rodir"}}, o)
+			plain(c18Scenario{File: f, Cmd: "write", Fault: c18Fault{Kind: "missing"}}, o)
+			plain(c18Scenario{File: f, Cmd: "check", Fault: c18Fault{Kind: "missing"}}, o)
 		}
 	}
-	close(jobs)
-	wg.Wait()
-	r.Note("time spent in the extracted model: %.1fs", chk.modelTime.Seconds())
+	pending.Wait()
+	r.Note("time spent in the extracted model (summed over 6 parallel model processes): %.1fs", chk.modelTime.Seconds())
 	r.Exhaustive = misses == 0 && injected > 0
-	r.Note("fault enumeration: %d source files x every call index of their fault-free run x {SIGKILL, ENOSPC, EIO, EACCES}: %d injected runs, %d did not hit the intended call (exhaustive=%v)", faultFiles, injected, misses, r.Exhaustive)
+	set := "{SIGKILL, ENOSPC, EIO, EACCES}"
+	if !thorough {
+		set = "{SIGKILL, one of ENOSPC/EIO/EACCES (rotating with call index and seed)}"
+	}
+	r.Note("fault enumeration: %d source files (fmt -w; fmt -c for %d of them) x every call index of their fault-free run x %s: %d injected runs, %d did not hit the intended call (exhaustive over the enumerated indices=%v)", faultFiles, nCheckFault, set, injected, misses, r.Exhaustive)
 	ks := []string{}
 	for k, v := range r.Distribution {
 		if strings.HasPrefix(k, "temp-left") {
@@ -1215,7 +1251,16 @@ func runC18(cfg Config, r *Result) {
 		}
 	}
 	sort.Strings(ks)
-	r.Note("left-over temp files (writeAtomically never removes its temp file on an error path; not part of the property, always a prefix of the formatted text): %s", strings.Join(ks, " "))
+	r.Note("left-over temp files (allowed only after a kill, or when the clean-up unlink itself failed; always a prefix of the formatted text): %s", strings.Join(ks, " "))
+}
+
+// c18Variant: which protocol of the model the binary is compared with. The protocol in force unless the
+// check itself is being sanity-tested against a binary built from before commit c62275b.
+func c18Variant() string {
+	if v := os.Getenv("C18_VARIANT"); v == "before-fix" {
+		return v
+	}
+	return "in-force"
 }
 
 func c18Replay(cfg Config, env *c18Env, chk *c18Checker) {
@@ -1232,19 +1277,12 @@ func c18Replay(cfg Config, env *c18Env, chk *c18Checker) {
 		return
 	}
 	s := v.Input
-	if pr, err := env.run(c18Scenario{File: s.File, Cmd: "write", Fault: c18Fault{Kind: "none"}}); err == nil {
-		for _, e := range pr.Events {
-			if e.Call == "fchmod" || e.Call == "stat" {
-				chk.variant = "fixed"
-			}
-		}
-	}
 	var run *c18Run
 	if s.Fault.Kind == "kill" || s.Fault.Kind == "err" {
 		// re-derive the injection point from a fresh fault-free run and insist on hitting the same call index
 		base, err := env.run(c18Scenario{File: s.File, Cmd: s.Cmd, Fault: c18Fault{Kind: "none"}})
 		if err == nil {
-			for _, ft := range c18FaultsOf(base) {
+			for _, ft := range c18FaultsOf(base, c18AllErrnos) {
 				if ft.Kind == s.Fault.Kind && ft.Index == s.Fault.Index && ft.Errno == s.Fault.Errno {
 					s.Fault = ft
 				}
